@@ -709,6 +709,37 @@ class StmtMixin:
                     item = post(stx, i, item)
                 return V(TTuple((INT, item.t)), (V(INT, i + start), item))
             return th, seq, elt, post2
+        if isinstance(it.t, TPy) and it.z[0] == "filter":
+            # filter(pred, xs): the subsequence of xs whose items satisfy pred (pred is evaluated as a specification:
+            # total, no side effect), described by an order-preserving index map in both directions
+            _, pred, src = it.z
+            th, seq, elt, post = self.iter_sequence(src, st, node)
+            if post is not None:
+                raise Unsupported("filter over a decorated iterator")
+            r = z3.Const(fresh_name("filtered"), th.S)
+            k, j = z3.Ints(fresh_name("k") + " " + fresh_name("j"))
+            src_of = prelude().func("filtsrc!" + fresh_name("f"), z3.IntSort(), z3.IntSort())
+            dst_of = prelude().func("filtdst!" + fresh_name("f"), z3.IntSort(), z3.IntSort())
+
+            def holds(term):
+                self.spec_mode += 1
+                try:
+                    return self.truth(self.apply(pred, [unbox(term, elt)], {}, st, node), st)
+                finally:
+                    self.spec_mode -= 1
+            st.pc.append(z3.And(0 <= th.Len(r), th.Len(r) <= th.Len(seq)))
+            st.pc.append(z3.ForAll([k], z3.Implies(z3.And(0 <= k, k < th.Len(r)),
+                                                   z3.And(0 <= src_of(k), src_of(k) < th.Len(seq),
+                                                          th.Idx(seq, src_of(k)) == th.Idx(r, k), holds(th.Idx(r, k)),
+                                                          dst_of(src_of(k)) == k)),
+                                   patterns=[th.Idx(r, k)]))
+            st.pc.append(z3.ForAll([k, j], z3.Implies(z3.And(0 <= k, k < j, j < th.Len(r)), src_of(k) < src_of(j)),
+                                   patterns=[z3.MultiPattern(src_of(k), src_of(j))]))
+            st.pc.append(z3.ForAll([j], z3.Implies(z3.And(0 <= j, j < th.Len(seq), holds(th.Idx(seq, j))),
+                                                   z3.And(0 <= dst_of(j), dst_of(j) < th.Len(r),
+                                                          th.Idx(r, dst_of(j)) == th.Idx(seq, j), src_of(dst_of(j)) == j)),
+                                   patterns=[th.Idx(seq, j)]))
+            return th, r, elt, None
         raise Unsupported(f"iteration over {it.t}: {self.src(node)}")
 
     def run_loop(self, s, st, spec, ordinal, guard, head, body, auto):
@@ -783,7 +814,10 @@ class StmtMixin:
         g_in = guard(it)
         it.pc.append(g_in)
         v0 = None
-        forever = spec.decreases == "forever"     # a service loop (`while True` ended only by cancellation): no variant
+        forever = spec.decreases in ("forever", "unproved")   # service loop (ended only by cancellation): no variant
+        if spec.decreases == "unproved":
+            # partial correctness only for this loop; said out loud in the evidence
+            self.note_assumption(f"termination of loop #{ordinal} of {self.unit} is not proved (decreases='unproved')")
         if forever:
             v0 = None
         elif spec.decreases is not None:
